@@ -4,6 +4,7 @@ import VrlModel.Driver.Arith
 import VrlModel.Driver.C25
 import VrlModel.Driver.C29int
 import VrlModel.Driver.C20
+import VrlModel.Driver.C22
 
 /-- Line protocol driver: one case per line `op <tab> arg…`, one reply line per case. -/
 def handlers : List (String → List String → Option String) := [
@@ -12,7 +13,8 @@ def handlers : List (String → List String → Option String) := [
   Driver.ArithOps.handle,
   Driver.C25.handle,
   Driver.C29int.handle,
-  Driver.C20.handle
+  Driver.C20.handle,
+  Driver.C22.handle
 ]
 
 def dispatch (op : String) (args : List String) : String :=
